@@ -344,6 +344,12 @@ def run(prop, tier):
             cov["supplementary"] = {"xfer_proto": xferproto.run_family(wd, quick, seed)}
         except Exception as e:
             cov["supplementary"] = {"xfer_proto": {"error": repr(e)[:300]}}
+        # supplementary: `wormhole ssh invite / accept` and xfer_util, SshKey.tla
+        try:
+            from . import sshkey
+            cov["supplementary"]["ssh_key"] = sshkey.run_family(wd, quick, seed)
+        except Exception as e:
+            cov["supplementary"]["ssh_key"] = {"error": repr(e)[:300]}
         path = wd.file("obs.ndjson")
         with open(path, "w") as f:
             for rec in records:
